@@ -115,7 +115,7 @@ def run(ctx: Ctx) -> Result:
         lines.append(f'I2BX {"-" if n < 0 else "+"} {abs(n):x}')
         expect.append(obs); meta.append(('int_to_bytes', str(n) if abs(n) < 1 << 80 else f'{"-" if n<0 else ""}0x{abs(n):x}'))
         counts['I2B'] += 1
-        if n >= 0 and (n < 70000 or counts['U2B'] < 20000):
+        if n >= 0:
             try:
                 u = F.uint_to_bytes(n).hex()
             except BaseException as e:
